@@ -39,6 +39,8 @@ def run(ctx):
     ctx.rule("C17.numpy-sum-rejects", "numpy _reduce_sum raises ValueError for where / initial / out / dtype")
     ctx.rule("C17.numpy-count-nonzero", "numpy _reduce_count_nonzero: count_nonzero(rho2 != 0 | z != 0 | t2 != 0 by dimension, axis=axis, keepdims=keepdims)")
     ctx.rule("C17.numpy-routing", "__array_function__ routes numpy.sum / numpy.count_nonzero / isclose / allclose; VectorNumpy.sum forwards axis and keepdims to numpy.sum")
+    ctx.rule("C17.sum-method", "VectorNumpy.sum(axis=None, dtype=None, out=None, keepdims=False, initial=None, where=None) has numpy.sum's defaults and forwards every parameter by its own name to numpy.sum(self, ...): v.sum() and numpy.sum(v) are the same reduction")
+    _sum_method(ctx)
     ctx.rule("C17.awkward-sum", "awkward _reduce_sum: x, y[, z][, t] summed over axis=1, zipped with array.behavior and the operand's record name")
     ctx.rule("C17.awkward-count", "awkward _reduce_count counts the first field; _reduce_count_nonzero is rho2 != 0 | z != 0 | t2 != 0 over axis=1")
     ctx.rule("C17.awkward-registration", "behavior[ak.sum|ak.count|ak.count_nonzero, name] registered for the six record names")
@@ -194,3 +196,30 @@ def _flatten_or(v, self):
         if v.tag[0] == "cmp" and v.tag[1] == "NotEq":
             return [f"{_accessor(v.tag[2], self)} != {v.tag[3]}"]
     return None
+
+
+def _sum_method(ctx):
+    import ast as _ast
+
+    from ..loader import facts as _facts, unparse as _unparse
+
+    nf = _facts("src/vector/backends/numpy.py", ctx.repo)
+    fn = nf.method("VectorNumpy", "sum")
+    if fn is None:
+        raise AnalysisError("anchor VectorNumpy.sum missing")
+    want = {"axis": "None", "dtype": "None", "out": "None", "keepdims": "False", "initial": "None", "where": "None"}
+    params = [a.arg for a in fn.args.args][1:]
+    defaults = [_unparse(d) for d in fn.args.defaults]
+    got = dict(zip(params[len(params) - len(defaults):], defaults))
+    calls = [c for c in _ast.walk(fn) if isinstance(c, _ast.Call) and _unparse(c.func) in ("numpy.sum", "_reduce_sum")]
+    msg = ""
+    if got != {k: v for k, v in want.items() if k in params} or any(p_ not in want for p_ in params):
+        msg = f"parameters/defaults {got}, numpy.sum has {want}"
+    elif len(calls) != 1:
+        msg = f"{len(calls)} numpy.sum calls"
+    else:
+        c = calls[0]
+        kws = {k.arg: _unparse(k.value) for k in c.keywords}
+        if [_unparse(a) for a in c.args] != ["self"] or kws != {p_: p_ for p_ in params}:
+            msg = f"forwards {[_unparse(a) for a in c.args]}, {kws}; expected (self, " + ", ".join(f"{p_}={p_}" for p_ in params) + ")"
+    ctx.ob("C17.sum-method", "VectorNumpy.sum", not msg, msg, None, f"src/vector/backends/numpy.py:{fn.lineno}")
